@@ -173,6 +173,10 @@ def float_to_fix(signed, n_bits, n_frac):
     mask = int(2**n_bits - 1)
     min_v, max_v = validate_fp_params(signed, n_bits, n_frac)
 
+    # `max_v` is a float: with more than 53 integer bits it is rounded up to
+    # the next power of two, so the converted integer is saturated as well.
+    max_fp = (1 << (n_bits - (1 if signed else 0))) - 1
+
     # Saturate values
     def bitsk(value):
         """Convert a floating point value to a fixed point value.
@@ -187,7 +191,7 @@ def float_to_fix(signed, n_bits, n_frac):
         if value < 0:
             fp_val = (1 << n_bits) + int(value * 2**n_frac)
         else:
-            fp_val = int(value * 2**n_frac)
+            fp_val = min(int(value * 2**n_frac), max_fp)
 
         assert 0 <= fp_val < 1 << (n_bits + 1)
         return fp_val & mask
@@ -357,13 +361,19 @@ class NumpyFloatToFixConverter(object):
         # Scale and cast to appropriate int types
         vals = values * 2.0 ** self.n_frac
 
-        # Saturate the values
+        # Saturate the values.  The maximum need not be exactly representable
+        # as a float (2**63 - 1 becomes 2.0**63): casting a value clipped to
+        # that bound would overflow the integer type, so everything at or above
+        # the bound is set to the maximum after the cast instead.
+        saturated = vals >= float(self.max_value)
         vals = np.clip(vals, self.min_value, self.max_value)
+        vals = np.where(saturated, 0, vals)
 
         # **NOTE** for some reason just casting resulted in shape
         # being zeroed on some indeterminate selection of OSes,
         # architectures, Python and Numpy versions"
-        return np.array(vals, copy=True, dtype=self.dtype)
+        vals = np.array(vals, copy=True, dtype=self.dtype)
+        return np.where(saturated, self.dtype(self.max_value), vals)
 
 
 class NumpyFixToFloatConverter(object):
